@@ -4,8 +4,8 @@ import ElkVerif.Model.Mini.Eval
 
 Types of the fragment: `Int`, `Bool`, `String`, `nil` and nilable versions of the first three.
 Expressions: literals, locals, arithmetic / comparison / equality / concatenation, `-`, `!`,
-`&&`/`||` on booleans, `??` on a nilable left operand. No calls, closures or assignments here
-(those are covered by the program-level correspondence, not by a theorem yet).
+`&&`/`||` on booleans, `??` on a nilable left operand. No calls, closures or assignments here:
+those, and all statements, are typed by the extended checker of `TypesB.lean` (stages B–D).
 -/
 namespace Elk.Mini
 
